@@ -1,6 +1,7 @@
 """C11 — numbers are lossless or rejected (decided part: checked conversions, two-sided
 overflow guard, lossless casts, float writers' case tables)."""
 import math
+import re
 
 from .core import run_property, AnalysisIncomplete, walk, peel, last_seg, calls_in, callee_all, src_facts, strip_generics
 from .den import Evaluator, FloatInterp, Interp, Unanalysable, FLOAT_REPS
@@ -225,7 +226,34 @@ def writer_table(facts, d, src):
             return lits[0]
         l = e.get('l')
         if l in fm:
-            return fm[l].strip('"')
+            text = fm[l].strip('"')
+
+            def cap(m):
+                # an inline capture of a local that holds the value being written reads as `{self}` (`let value = *self; write!(w, "{value}.0")`)
+                ident = m.group(1)
+
+                def f32(x):
+                    import struct
+                    try:
+                        return struct.unpack('f', struct.pack('f', x))[0] if isinstance(x, float) else x
+                    except OverflowError:
+                        return math.copysign(math.inf, x)
+                same = lambda x, y: x == y or (isinstance(x, float) and isinstance(y, float) and x != x and y != y and math.copysign(1, x) == math.copysign(1, y))
+                for key, val in env.items():
+                    if key.split('#')[0].split('~')[0] == ident and (same(val, env.get(selfv)) or same(f32(val), f32(env.get(selfv)))):
+                        return '{self}'
+                # the captured local may have been a parameter of an expanded helper (verif/normalise.py): then the argument expression stands in
+                # its place among the arguments of format_args!
+                recv = peel(e.get('recv', {})) if e.get('k') == 'mcall' else {}
+                argv = []
+                for a in e.get('args', []) if e.get('k') == 'mcall' else []:
+                    for x in walk(a):
+                        if x.get('k') == 'path' and x.get('res') == 'Local' and x.get('path') != recv.get('path') and x.get('path') in env:
+                            argv.append(env[x['path']])
+                if argv and all(same(v, env.get(selfv)) or same(f32(v), f32(env.get(selfv))) for v in argv):
+                    return '{self}'
+                return m.group(0)
+            return re.sub(r'\{([A-Za-z_][A-Za-z0-9_]*)(:[^}]*)?\}', lambda m: cap(m) if m.group(2) is None else m.group(0), text) if True else text
         raise Unanalysable(f'cannot describe the output at line {l}')
     table = {}
     for name, v in FLOAT_REPS.items():
